@@ -1114,18 +1114,25 @@ Proof.
     apply Nat.eqb_eq in E. subst f. rewrite Hs. apply pf_fold_errhup. exact H.
 Qed.
 
+Lemma inited_of_sock n i k : NetInv n -> nth_error (socks n) i = Some k -> net_inited n = true.
+Proof.
+  intros HI Hk. destruct (net_inited n) eqn:E; [reflexivity|].
+  destruct (n_uninit n HI E) as [A _]. rewrite A in Hk. destruct i; discriminate.
+Qed.
+
 (* one dispatch: the entry at pos (already folded) has the bit for dir *)
 Lemma get_dispatch n pos p0 dir k n3 :
-  NetInv n -> net_inited n = true -> nth_error (fds n) pos = Some p0 ->
+  NetInv n -> nth_error (fds n) pos = Some p0 ->
   rb_dir (p_rev (pf_fold p0)) dir = true ->
   nth_error (socks n) (p_fd p0) = Some k ->
   clearbit pos dir
     (net_with (net_with n (socks n) (upd_nth pos (pf_fold p0) (fds n)))
               (upd_nth (p_fd p0) (sk_set dir None k) (socks n))
               (upd_nth pos (pf_fold p0) (fds n))) = Ok n3 ->
-  NetInv n3 /\ net_inited n3 = true /\ get_rel n n3 /\ get_result n n3 (sk_get dir k).
+  NetInv n3 /\ get_rel n n3 /\ get_result n n3 (sk_get dir k).
 Proof.
-  intros HI Hin Hp0 Hbit Hk Hcb.
+  intros HI Hp0 Hbit Hk Hcb.
+  pose proof (inited_of_sock n _ _ HI Hk) as Hin.
   set (p := pf_fold p0) in *.
   set (n1 := net_with n (socks n) (upd_nth pos p (fds n))) in *.
   assert (HI1 : NetInv n1) by (apply fold_inv; auto).
@@ -1139,7 +1146,7 @@ Proof.
     with (net_with n1 (upd_nth (p_fd p0) (sk_set dir None k) (socks n1)) (fds n1)) in Hcb.
   destruct (net_remove_spec n1 (p_fd p0) k pos p dir n3 HI1 Hin Hk1 Hpos Hp1 Hcb) as [HI3 [Hin3 [Hf3 Hr3]]].
   pose proof (net_remove_shrinks n1 (p_fd p0) k pos p dir n3 HI1 Hin Hk1 Hpos Hp1 Hcb) as [Hsh1 Hsh2].
-  split; [exact HI3|]. split; [exact Hin3|]. split.
+  split; [exact HI3|]. split.
   - apply get_rel_trans with (b := n1); [exact Hrel1|]. split.
     + intros f d H. left. apply (Hsh1 f d H).
     + intros f H. apply Hsh2. exact H.
@@ -1163,12 +1170,12 @@ Proof.
 Qed.
 
 Lemma net_get_loop_spec fuel : forall n ro n',
-  NetInv n -> net_inited n = true -> net_get_loop fuel n = Ok (ro, n') ->
-  NetInv n' /\ net_inited n' = true /\ get_rel n n' /\ get_result n n' ro.
+  NetInv n -> net_get_loop fuel n = Ok (ro, n') ->
+  NetInv n' /\ get_rel n n' /\ get_result n n' ro.
 Proof.
-  induction fuel as [|fuel IH]; intros n ro n' HI Hin H; simpl in H; [discriminate|].
+  induction fuel as [|fuel IH]; intros n ro n' HI H; simpl in H; [discriminate|].
   destruct (scanpos n <? N.of_nat (length (fds n)))%N eqn:Escan.
-  2:{ inversion H; subst. split; [exact HI|]. split; [exact Hin|]. split; [apply get_rel_refl|].
+  2:{ inversion H; subst. split; [exact HI|]. split; [apply get_rel_refl|].
       simpl. auto. }
   destruct (rdn (fds n) (N.to_nat (scanpos n))) as [p0| | |] eqn:Ep0; simpl in H; try discriminate.
   apply rdn_ok in Ep0. set (pos := N.to_nat (scanpos n)) in *.
@@ -1178,28 +1185,28 @@ Proof.
     match type of H with context [clearbit pos false ?st] => destruct (clearbit pos false st) as [n3| | |] eqn:Ecb end;
       simpl in H; try discriminate.
     inversion H; subst ro n'.
-    apply (get_dispatch n pos p0 false k n3 HI Hin Ep0 Ein Ek Ecb). }
+    apply (get_dispatch n pos p0 false k n3 HI Ep0 Ein Ek Ecb). }
   destruct (b_out (p_rev (pf_fold p0))) eqn:Eout.
   { rewrite pf_fold_fd in H.
     destruct (rdn (socks n) (p_fd p0)) as [k| | |] eqn:Ek; simpl in H; try discriminate. apply rdn_ok in Ek.
     match type of H with context [clearbit pos true ?st] => destruct (clearbit pos true st) as [n3| | |] eqn:Ecb end;
       simpl in H; try discriminate.
     inversion H; subst ro n'.
-    apply (get_dispatch n pos p0 true k n3 HI Hin Ep0 Eout Ek Ecb). }
+    apply (get_dispatch n pos p0 true k n3 HI Ep0 Eout Ek Ecb). }
   (* nothing at this position: move on *)
   set (n1 := net_with n (socks n) (upd_nth pos (pf_fold p0) (fds n))) in *.
   assert (HI1 : NetInv n1) by (apply fold_inv; auto).
   destruct (fold_get_rel n pos p0 HI Ep0) as [Hrel1 _]. fold n1 in Hrel1.
-  apply IH in H; [|apply net_set_scan_inv; exact HI1 | exact Hin].
-  destruct H as [HI' [Hin' [Hrel' Hres']]].
-  split; [exact HI'|]. split; [exact Hin'|]. split.
+  apply IH in H; [|apply net_set_scan_inv; exact HI1].
+  destruct H as [HI' [Hrel' Hres']].
+  split; [exact HI'|]. split.
   - apply get_rel_trans with (b := n1); [exact Hrel1 | exact Hrel'].
   - apply (get_result_trans n n1 n' ro); auto.
 Qed.
 
 Lemma net_get_spec n ro n' :
-  NetInv n -> net_inited n = true -> net_get n = Ok (ro, n') ->
-  NetInv n' /\ net_inited n' = true /\ get_rel n n' /\ get_result n n' ro.
+  NetInv n -> net_get n = Ok (ro, n') ->
+  NetInv n' /\ get_rel n n' /\ get_result n n' ro.
 Proof. unfold net_get. apply net_get_loop_spec. Qed.
 
 (* ---------------------------------------------------------------- the answer a poll reports *)
